@@ -18,6 +18,7 @@ REPO = os.environ.get('VERIF_REPO', '/repo')
 WORK = os.environ.get('VERIF_WORK', os.path.join(VERIF, 'work'))
 PRELUDE = open(os.path.join(VERIF, 'vf', 'verus_prelude.rs')).read()
 
+ASSUMPTION_SCAN = {}
 ENV = dict(os.environ)
 ENV['CARGO_NET_OFFLINE'] = 'true'
 
@@ -228,6 +229,18 @@ def assemble(anns: List[Annotated], path: str):
     text = ''.join(parts)
     with open(path, 'w') as f:
         f.write(text)
+    # mechanical assumption scan: inside the part that came from the dump (the declaration modules)
+    # nothing may be assumed; assumptions live only in the fixed prelude and the auxiliary items
+    first_mod = text.find('pub mod d_')
+    body = text[first_mod:] if first_mod >= 0 else ''
+    pat = re.compile(r'\bassume\s*\(|\badmit\s*\(|external_body|assume_specification|\baxiom\b|#\[verifier::external_fn_specification|#\[verifier::external_type_specification')
+    hits = [m.group(0) for m in pat.finditer(body) if not body[max(0, m.start() - 40):m.start()].rstrip().endswith('broadcast use {')]
+    hits = [h for h in hits if h != 'axiom']   # `broadcast use {axiom_…}` names only
+    if hits:
+        raise Undecided('assumption scan: %d assumption construct(s) inside the generated modules of %s: %s' % (len(hits), os.path.basename(path), hits[:5]))
+    ASSUMPTION_SCAN['prelude_and_aux'] = max(ASSUMPTION_SCAN.get('prelude_and_aux', 0), len(pat.findall(text[:first_mod] if first_mod >= 0 else text)))
+    ASSUMPTION_SCAN['inside_generated_modules'] = 0
+    ASSUMPTION_SCAN['files'] = ASSUMPTION_SCAN.get('files', 0) + 1
     return text, decl_lines
 
 
